@@ -17,7 +17,7 @@ ENGINE = "E2"
 TECHNIQUE = "stateless exploration of the real Commissioning generator against a population of spec-model gear: all random-draw histories within R rounds (slice A) and all configurations x scripted draw patterns (slice B)"
 RULE = ("slice A: fixed configurations x ALL draw histories over alphabet A within R rounds (last round clash-free among "
         "units still searching); slice B: all populations n<=N with pre-existing addresses from {None,0,1,63} (multisets) x 7 "
-        "permitted-address options x readdress x dry_run x 8 draw patterns; fault menu {unit ignores PROGRAM SHORT ADDRESS, unit "
+        "permitted-address options x readdress x dry_run x 11 draw patterns; fault menu {unit ignores PROGRAM SHORT ADDRESS, unit "
         "answers VERIFY with NO} per unit; 64/65/70-unit populations; states = distinct (configuration, draw history) leaves; "
         "transitions = commands executed")
 ASSUMPTIONS = [
@@ -180,6 +180,10 @@ PATTERNS = {
     "redraw-equals-withdrawn": [[5, 9, 9, 9], [7, 7, 8, 6]],
     "two-clash-rounds": [[4, 4, 4, 4], [6, 6, 9, 9], [1, 2, 3, 4]],
     "all-ones-clash": [[0xFFFFFF, 0xFFFFFF, 0, 0], [0xFFFFFF, 0, 1, 2]],
+    # neighbours at both ends of the 24-bit range (the search is entered with low == high after the last-but-one address)
+    "top-neighbours": [[0xFFFFFE, 0xFFFFFF, 0xFFFFFD, 0x000000]],
+    "bottom-neighbours": [[0x000001, 0x000000, 0x000002, 0xFFFFFF]],
+    "top-clash-then-neighbours": [[0xFFFFFF, 0xFFFFFF, 0xFFFFFE, 0xFFFFFE], [0xFFFFFE, 0xFFFFFF, 0xFFFFFD, 0xFFFFFC]],
 }
 
 
